@@ -120,7 +120,9 @@ pub fn check_script(script: &[String]) -> Result<(Scopes, Vec<String>), (String,
             Ok(CmdKind::DeclareConst(n)) => declared.push(n),
             Ok(_) => {}
             Err(e) => {
-                let kind = if e.contains("already declared or defined") {
+                let kind = if e.contains("reference-limit") {
+                    "HARNESS-reference-limit"
+                } else if e.contains("already declared or defined") {
                     "defined-twice"
                 } else if e.contains("unknown constant") {
                     "used-before-definition"
@@ -260,6 +262,9 @@ impl Prop for C04 {
         // (a)
         let (sc, declared) = match check_script(&script) {
             Ok(x) => x,
+            Err((kind, msg)) if kind.starts_with("HARNESS") => {
+                return Err(Failure::new("harness/reference-limit", format!("{}\nscript:\n{}", msg, script.join("\n"))));
+            }
             Err((kind, msg)) => {
                 return Err(Failure::new(
                     format!("encoding/{}/{}", entry, kind),
